@@ -17,8 +17,11 @@ def one(sid):
         p = subprocess.run('patch -p1 -s < %s' % os.path.join(d, 'patch.diff'), shell=True, cwd=tmp, capture_output=True, text=True)
         if p.returncode != 0:
             return sid, {'error': 'patch does not apply: ' + p.stdout[-200:]}
-        r = subprocess.run('./check %s %s' % (pid, '--tier quick' if FULL else '--only deductive'), shell=True, cwd=VERIF,
-                           env=dict(os.environ, PYVC_REPO=tmp), capture_output=True, text=True, timeout=3600)
+        try:
+            r = subprocess.run('./check %s %s' % (pid, '--tier quick' if FULL else '--only deductive'), shell=True, cwd=VERIF,
+                               env=dict(os.environ, PYVC_REPO=tmp), capture_output=True, text=True, timeout=3600)
+        except subprocess.TimeoutExpired:
+            return sid, {'exit': None, 'error': 'the check did not end within an hour'}
         lines = [l for l in r.stdout.splitlines() if 'condarc' not in l]
         return sid, {'exit': r.returncode, 'violated': [l.strip()[:160] for l in lines if l.strip().startswith('violated:')][:3],
                      'undecided': [l.strip()[:220] for l in lines if 'UNDECIDED' in l][:3],
